@@ -132,6 +132,15 @@ pub enum Error {
     /// no presentation contexts accepted by the server
     NoAcceptedPresentationContexts { backtrace: Backtrace },
 
+    /// too many presentation contexts proposed
+    /// (identifiers are odd numbers between 1 and 255)
+    #[snafu(display(
+        "too many presentation contexts ({}), at most 128 can be proposed",
+        count
+    ))]
+    #[non_exhaustive]
+    TooManyPresentationContexts { count: usize, backtrace: Backtrace },
+
     /// failed to send PDU message on wire
     #[non_exhaustive]
     WireSend {
